@@ -1,5 +1,6 @@
 SPECIFICATION Spec
 CONSTANTS
+  Sharing = "none"
   Depth = 4
   PoolMethods <- GenPoolMethodsQuick
 INVARIANT Emit
